@@ -6,10 +6,15 @@
    or one byte before / after one, plus a selection end beyond the end of the document: empty
    selections, partial-token selections, multi-line, whole-file and beyond-end selections are all
    in this set.  For large documents `window` > 0 restricts the pairs to those with at most `window`
-   candidate positions in between (all short selections at every position).  One SEL line per pair. *)
+   candidate positions in between (all short selections at every position).  One SEL line per pair.
+
+   Documents of FmtSelDocs.tla (many small documents that differ in one multi-line token) carry `lines`, the
+   offsets of their line starts, and are enumerated in the way an editor produces ranges: every caret
+   (s = e) on a token boundary or line start, every token-to-next-boundary selection, and every whole-line
+   selection (s, e line starts or the end of the document, s < e). *)
 EXTENDS Integers, Sequences, SequencesExt, FiniteSets, TLC, Json, IOUtils
 
-Docs == TLCEval(ndJsonDeserialize(IOEnv.DOCS))     \* records [id, len, bounds, window]
+Docs == TLCEval(ndJsonDeserialize(IOEnv.DOCS))     \* records [id, len, bounds, window, lines]; lines = <<>>: all pairs
 
 VARIABLES d, s, e
 
@@ -18,8 +23,16 @@ Cand(doc) == {x \in UNION {{b - 1, b, b + 1} : b \in RangeOf(doc.bounds)} : x >=
              \cup {0, doc.len, doc.len + 5}
 MinOf(a, b) == IF a <= b THEN a ELSE b
 
+LineSel(doc) ==
+  LET L == RangeOf(doc.lines) \cup {0, doc.len}
+      P == RangeOf(doc.bounds) \cup L
+      PS == SetToSortSeq(P, LAMBDA a, b : a < b)
+  IN {<<x, x>> : x \in P} \cup {<<PS[i], PS[i + 1]>> : i \in 1..(Len(PS) - 1)}
+     \cup {<<a, b>> \in L \X L : a < b}
+
 Init == /\ d \in 1..Len(Docs)
-        /\ LET C == SetToSortSeq(Cand(Docs[d]), LAMBDA a, b : a < b)
+        /\ IF Docs[d].lines # <<>> THEN (\E p \in LineSel(Docs[d]) : s = p[1] /\ e = p[2]) ELSE
+           LET C == SetToSortSeq(Cand(Docs[d]), LAMBDA a, b : a < b)
                W == IF Docs[d].window = 0 THEN Len(C) ELSE Docs[d].window + 1
            IN \E i \in 1..Len(C) : \E k \in i..MinOf(Len(C), i + W) : s = C[i] /\ e = C[k]
 Next == UNCHANGED <<d, s, e>>
